@@ -58,6 +58,7 @@ type System struct {
 	scheduler    gocoro.Scheduler[*t_aio.Submission, *t_aio.Completion]
 	onRequest    map[t_api.Kind]func(req *t_api.Request, res func(*t_api.Response, error)) gocoro.CoroutineFunc[*t_aio.Submission, *t_aio.Completion, any]
 	background   []*backgroundCoroutine
+	backgroundAt int // the background coroutine that is considered first at the next tick
 	shutdown     chan interface{}
 	shortCircuit chan interface{}
 }
@@ -133,8 +134,10 @@ func (s *System) Tick(t int64) {
 		cqe.Callback(cqe.Completion, cqe.Error)
 	}
 
-	// add background coroutines
-	for _, bg := range s.background {
+	// add background coroutines; they take turns at being first, so that with a scheduler
+	// queue smaller than their number every one of them is started eventually
+	for i := range s.background {
+		bg := s.background[(s.backgroundAt+i)%len(s.background)]
 		if !s.api.Done() && (t-bg.last) >= int64(s.config.SignalTimeout.Milliseconds()) && (bg.promise == nil || bg.promise.Completed()) {
 			tags := map[string]string{
 				"id":   fmt.Sprintf("%s:%d", bg.name, t),
@@ -149,6 +152,9 @@ func (s *System) Tick(t int64) {
 				slog.Warn("scheduler queue full", "size", s.config.CoroutineMaxSize)
 			}
 		}
+	}
+	if len(s.background) > 0 {
+		s.backgroundAt = (s.backgroundAt + 1) % len(s.background)
 	}
 
 	// dequeue sqes
